@@ -29,9 +29,43 @@ fn cmd_bw(goal: &str, prog: &str, depth: &str) -> String {
     string_of_bw(&r)
 }
 
+// The Python-facing string wrappers (wrappers.rs), called in the given order on
+// ONE thread: answers must not depend on what was asked before.
+fn string_of_bwpy(r: &crate::wrappers::BackwardResult) -> String {
+    use crate::wrappers::BackwardResult as W;
+    match r {
+        W::refuted { step } => format!("refuted:{step}"),
+        W::init {} => "init".to_string(),
+        W::linrec {} => "linrec".to_string(),
+        W::spinout {} => "spinout".to_string(),
+        W::step_limit {} => "step_limit".to_string(),
+        W::depth_limit {} => "depth_limit".to_string(),
+    }
+}
+
+fn cmd_bwpyseq(prog: &str, depth: &str, goals: &str) -> String {
+    let depth: usize = depth.parse().unwrap();
+    goals
+        .split(',')
+        .map(|g| {
+            let r = std::panic::catch_unwind(|| match g {
+                "halt" => crate::wrappers::py_cant_halt(prog, depth),
+                "blank" => crate::wrappers::py_cant_blank(prog, depth),
+                _ => crate::wrappers::py_cant_spin_out(prog, depth),
+            });
+            match r {
+                Ok(r) => string_of_bwpy(&r),
+                Err(_) => "PANIC".to_string(),
+            }
+        })
+        .collect::<Vec<_>>()
+        .join(",")
+}
+
 pub fn dispatch(fields: &[&str]) -> Option<String> {
     match fields {
         ["bw", goal, prog, depth] => Some(cmd_bw(goal, prog, depth)),
+        ["bwpyseq", prog, depth, goals] => Some(cmd_bwpyseq(prog, depth, goals)),
         _ => None,
     }
 }
